@@ -11,6 +11,7 @@ import TFV.Generated.Src.GC_gray_to_bit
 import TFV.Generated.Src.GC_bit_to_gray
 import TFV.Generated.Src.SG_decode
 import TFV.Generated.Src.GC_decode
+import TFV.Generated.Src.SG_int_to_bit
 
 namespace TFV.Properties.Src.GrayKernels
 open TFV.Np TFV.Gray TFV.GrayK TFV.Generated.Src
@@ -147,6 +148,90 @@ theorem C10_src_decode_gray (powers : List Int) (m : Mat) (hwf : m.WF)
   apply List.map_congr_left
   intro r _
   simp only [Function.comp, toBools_ofBools, code, if_true]
+
+/-- `SamplingGrid.int_to_bit` with a given width `w ≥ 1`: row `j` is `natToBits w` of code `j` (most significant bit first), for
+    the default powers and for any table whose first `w` entries are the powers of two -/
+theorem C10_src_int_to_bit (widthOf : List Int → Nat) (xs : List Nat) (w : Nat) (hw : 0 < w) (powers : Option (List Int))
+    (hp : ∀ p, powers = some p → p.take w = pow2Arange w) :
+    SG_int_to_bit widthOf (xs.map fun (n : Nat) => (n : Int)) powers (some w)
+      = some { ncols := w, rows := xs.map fun n => ofBools (natToBits w n) } := by
+  have key : ∀ v : List Int, v.take w = pow2Arange w →
+      Np.assignAndPosCols (Np.empty (xs.map fun (n : Nat) => (n : Int)).length w) (xs.map fun (n : Nat) => (n : Int)) (Np.flip (takeL w v))
+        = some { ncols := w, rows := xs.map fun n => ofBools (natToBits w n) } := by
+    intro v hv
+    have hl : (Np.flip (takeL w v)).length = w := by
+      simp only [Np.flip, takeL, List.length_reverse, hv, pow2Arange_length]
+    unfold Np.assignAndPosCols
+    rw [if_neg (by rw [hl]; omega)]
+    simp only [Np.empty, hl, List.length_replicate, List.length_map, Nat.le_refl, and_self, if_true]
+    congr 2
+    have hz := zip_replicate_map (List.replicate w (0 : Int)) (xs.map fun (n : Nat) => (n : Int))
+      (fun (p : List Int × Int) => (Np.flip (takeL w v)).map (andPos p.2) ++ p.1.drop w)
+    simp only [List.length_map] at hz
+    rw [hz, List.map_map]
+    apply List.map_congr_left
+    intro n _
+    simp only [Function.comp, takeL, hv, map_andPos_flip_pow2]
+    rw [List.drop_of_length_le (by simp), List.append_nil]
+  cases powers with
+  | none =>
+    have h0 : (pow2Arange w).take w = pow2Arange w := List.take_of_length_le (by rw [pow2Arange_length])
+    have := key (pow2Arange w) h0
+    simp only [List.length_map] at this
+    simp [SG_int_to_bit, this]
+  | some p =>
+    have := key p (hp p rfl)
+    simp only [List.length_map] at this
+    simp [SG_int_to_bit, this]
+
+/-- encode then decode at the level of the translated kernels: the integers come back (plain binary) -/
+theorem C10_src_int_roundtrip (widthOf : List Int → Nat) (xs : List Nat) (w : Nat) (hw : 0 < w) (hx : ∀ n ∈ xs, n < 2 ^ w)
+    (powers : List Int) (hp : powers.take w = pow2Arange w) :
+    (SG_int_to_bit widthOf (xs.map fun (n : Nat) => (n : Int)) (some powers) (some w)).bind (SG_decode powers)
+      = some (xs.map fun (n : Nat) => (n : Int)) := by
+  rw [C10_src_int_to_bit widthOf xs w hw (some powers) (by intro p h; injection h with h; subst h; exact hp), Option.bind_some]
+  rw [C10_src_decode_bin powers _ ?_ ?_ hp]
+  · simp only [List.map_map]
+    congr 1
+    apply List.map_congr_left
+    intro n hn
+    simp only [Function.comp, toBools_ofBools, code, Bool.false_eq_true, if_false, bits_roundtrip w n (hx n hn)]
+  · intro r hr
+    simp only [List.mem_map] at hr
+    obtain ⟨n, _, rfl⟩ := hr
+    rw [ofBools_length, natToBits_length]
+  · intro r hr
+    simp only [List.mem_map] at hr
+    obtain ⟨n, _, rfl⟩ := hr
+    exact ofBools_bits _
+
+/-- ... and through the Gray code: `int_to_bit`, `bit_to_gray`, then `GrayCode._decode` give the integers back -/
+theorem C10_src_int_roundtrip_gray (widthOf : List Int → Nat) (xs : List Nat) (w : Nat) (hw : 0 < w) (hx : ∀ n ∈ xs, n < 2 ^ w)
+    (powers : List Int) (hp : powers.take w = pow2Arange w) :
+    ((SG_int_to_bit widthOf (xs.map fun (n : Nat) => (n : Int)) (some powers) (some w)).bind GC_bit_to_gray).bind (GC_decode powers)
+      = some (xs.map fun (n : Nat) => (n : Int)) := by
+  rw [C10_src_int_to_bit widthOf xs w hw (some powers) (by intro p h; injection h with h; subst h; exact hp), Option.bind_some]
+  have hwf : ({ ncols := w, rows := xs.map fun n => ofBools (natToBits w n) } : Mat).WF := by
+    intro r hr
+    simp only [List.mem_map] at hr
+    obtain ⟨n, _, rfl⟩ := hr
+    rw [ofBools_length, natToBits_length]
+  have hbits : Bits ({ ncols := w, rows := xs.map fun n => ofBools (natToBits w n) } : Mat) := by
+    intro r hr
+    simp only [List.mem_map] at hr
+    obtain ⟨n, _, rfl⟩ := hr
+    exact ofBools_bits _
+  rw [C10_src_bit_to_gray _ hwf hbits hw, Option.bind_some]
+  rw [C10_src_decode_gray powers _ ?_ hp]
+  · simp only [List.map_map]
+    congr 1
+    apply List.map_congr_left
+    intro n hn
+    simp only [Function.comp, toBools_ofBools, code, if_true, grayToBin_binToGray, bits_roundtrip w n (hx n hn)]
+  · intro r hr
+    simp only [List.mem_map, List.map_map] at hr
+    obtain ⟨n, _, rfl⟩ := hr
+    simp only [Function.comp, ofBools_length, binToGray_length, toBools_length, natToBits_length]
 
 /-- non-vacuity: a concrete 2 x 3 population, decoded by the translated kernels -/
 example : GC_decode [1, 2, 4, 8] { ncols := 3, rows := [[1, 1, 0], [0, 1, 1]] } = some [4, 2]
